@@ -13,8 +13,14 @@ class FakePopen:
 
     def __call__(self, args, **kw):
         self.calls.append(list(args))
-        if self.script.get("spawn_error"):
-            raise OSError(11, "Resource temporarily unavailable")
+        err = self.script.get("spawn_error")
+        if err:
+            # every way Popen can fail to start the child: resource shortage, missing or non-executable
+            # interpreter, too many open files (OSError picks the matching subclass from the errno)
+            import errno
+            import os
+            code = err if isinstance(err, int) and not isinstance(err, bool) else errno.EAGAIN
+            raise OSError(code, os.strerror(code))
         return _Child(self.script)
 
 
